@@ -406,6 +406,12 @@ func (s *sim) buildBlock(parent *mBlock, bs *BlockSpec) *mBlock {
 	if err != nil {
 		panic(fmt.Sprintf("harness: coinbase: %v", err))
 	}
+	if s.v2Regime(height) {
+		// CreateCoinbaseTx pays the CR share to the foundation address below
+		// CRCommitteeStartHeight; on a real chain DPoS v2 comes long after that
+		// height, so a miner of this regime pays the CR assets address.
+		cb.Outputs()[0].ProgramHash = *cfg.CRConfiguration.CRAssetsProgramHash
+	}
 	blk := &types.Block{Header: common2.Header{Version: 0, Previous: parent.hash, Height: height, Bits: cfg.PowConfiguration.PowLimitBits}}
 	blk.Transactions = append([]interfaces.Transaction{cb}, txs...)
 	if bs.Bad == "dup-tx" && lastFee != nil {
@@ -417,17 +423,17 @@ func (s *sim) buildBlock(parent *mBlock, bs *BlockSpec) *mBlock {
 	switch bs.Bad {
 	case "reward+1":
 		total++
-		if selfOK {
-			selfOK, why = false, "coinbase-overpays"
-		}
 	case "reward-1":
 		total--
-		if selfOK {
-			selfOK, why = false, "coinbase-underpays"
-		}
 	}
 	if err := s.node.svc.AssignCoinbaseTxRewards(blk, common.Fixed64(total)); err != nil {
 		panic(fmt.Sprintf("harness: rewards: %v", err))
+	}
+	if s.v2Regime(height) {
+		s.tweakCoinbase(blk, bs.Bad, height, miner)
+	}
+	if w := s.labelCoinbase(blk, height, fees); w != "" && selfOK {
+		selfOK, why = false, w
 	}
 	ts := parent.ts + 1 + uint32(mod(bs.Dt, 600))
 	mtp := medianTimePast(parent)
